@@ -133,10 +133,10 @@ func genConstantOfShape(r *gen.R, validOnly bool) (mon.OpReq, Expect, bool) {
 	if !validOnly && r.Chance(0.2) {
 		switch r.Intn(4) {
 		case 0:
-			two := r.Tensor(ref.F32, []int{2}, gen.FillSmall, 5)
+			two := r.Tensor(ref.F32, r.PickShape([]int{2}, []int{1, 3}, []int{1, 2}, []int{1, 1, 2}, []int{2, 1}, []int{3}, []int{2, 2}), gen.FillUnique, 0)
 			req.Attrs = []*mon.Attr{mon.AttrT("value", mon.TensorProto("", two, r.Bool()))}
 			req.Inputs = []*ref.T{gen.I64s(s64...)}
-			return req, Expect{Kind: MustError, Why: "value attribute with two elements"}, true
+			return req, Expect{Kind: MustError, Why: "value attribute with more than one element"}, true
 		case 1:
 			req.Attrs = []*mon.Attr{mon.AttrF("value_float", 1)}
 			req.Inputs = []*ref.T{gen.I64s(s64...)}
@@ -168,6 +168,9 @@ func genCast(r *gen.R, validOnly bool) (mon.OpReq, Expect, bool) {
 		from = r.PickDT(ref.F32, ref.F64, ref.I32, ref.I64, ref.I16, ref.U16, ref.U32, ref.U64)
 	}
 	shape := r.Shape(0, 4, 4, 60)
+	if r.Chance(0.0005) { // a large operand: code paths that switch on the element count
+		shape = r.PickShape([]int{1025}, []int{65537}, []int{257, 257}, []int{70003}, []int{3, 7, 64}, []int{65536})
+	}
 	x := ref.New(from, shape...)
 	for i := range x.Bits {
 		x.Bits[i] = castValue(r, from, to)
